@@ -218,3 +218,33 @@ Definition reissue_from_final (ps : list policy) (init : bytes) (hs : hdrs) (scr
            | Refused => []
            end
   end.
+
+(* The digest-auth re-send (digest.go handleDigestAuthFunc): when the answer the call ends with is a
+   401 carrying a Digest challenge, ONE more request is made - a copy of the FIRST request
+   (r.RawRequest: the named URL, the caller's headers) with the Authorization header SET to the digest
+   answer, handed to Transport.RoundTrip directly: no redirect is followed from it.  A refused chain
+   (error) or a 30x handed back (NoRedirectPolicy) is no 401: no re-send. *)
+Fixpoint set_hdr (n : bytes) (k : nat) (hs : hdrs) : hdrs :=
+  match hs with
+  | [] => [(n, k)]
+  | h :: r => if bytes_eqb (fst h) n then (n, k) :: r else h :: set_hdr n k r
+  end.
+
+Definition h_authorization : bytes := bs "Authorization".
+
+Definition digest_call (ps : list policy) (init : bytes) (hs : hdrs) (targets : list bytes) : outcome :=
+  let o := run_chain ps init hs targets in
+  match snd o with
+  | Completed => (fst o ++ [{| s_host := init; s_hdrs := set_hdr h_authorization 1 hs |}], Completed)
+  | Refused => o
+  end.
+
+(* A wrong design kept for contrast (seeded change d-m1): the re-send takes its URL from the request
+   that answered the 401 - the LAST hop - and still carries the first request's headers *)
+Definition digest_call_last_hop (ps : list policy) (init : bytes) (hs : hdrs) (targets : list bytes) : outcome :=
+  let o := run_chain ps init hs targets in
+  match snd o with
+  | Completed => (fst o ++ [{| s_host := last (map s_host (fst o)) init;
+                               s_hdrs := set_hdr h_authorization 1 hs |}], Completed)
+  | Refused => o
+  end.
